@@ -233,6 +233,27 @@ def engine_waits(r, F):
               "a flusher answers Wait submissions outside handle_io_complete (%s): the answer can overtake the write of the entries queued before it" % sorted(set(sends)))
 
 
+def flag_writers(r, F):
+    """who-may-write for the two flags that gate writes to disk: `active` of the block engine is cleared only by close (a second writer makes the engine refuse or
+    accept work at the wrong time); the probation mark is set only by a picker and cleared only by BlockStatistics::reset"""
+    seen = {}
+    for f in F.all_fns("P"):
+        if f.crate.name != "foyer_storage" or "::tests::" in f.short or "test_utils" in f.file:
+            continue
+        for b in f.calls_to(r"atomic::Atomic::<bool>::(fetch_or|store|swap|fetch_and|fetch_xor|fetch_nand|compare_exchange\w*|fetch_update)$"):
+            sl = backslice(f, b.term.args[0], "prov")
+            for fld in ("active", "probation"):
+                if any(n == fld for of, n in sl.fields):
+                    root = F.P.get(f.root, f).short
+                    val = b.term.args[1].const_val() if len(b.term.args) > 1 and b.term.args[1].is_const() else "?"
+                    seen.setdefault(fld, set()).add((root.rsplit("::", 2)[-2] + "::" + root.rsplit("::", 1)[-1], val))
+    r.require(seen.get("active") == {("BlockEngine::close", 0)}, None, "only close clears `active`", "writers of BlockEngineInner.active: %s" % sorted(seen.get("active", ())),
+              "the engine's `active` flag is written at %s: expected a single store(false) in BlockEngine::close" % sorted(seen.get("active", ())))
+    pw = seen.get("probation", set())
+    r.require(any(v == 1 and "Picker" in w for w, v in pw) and any(v == 0 and w.endswith("BlockStatistics::reset") for w, v in pw) and all(("Picker" in w and v == 1) or (w.endswith("BlockStatistics::reset") and v == 0) for w, v in pw), None,
+              "probation is set by pickers, cleared by reset", "writers of BlockStatistics.probation: %s" % sorted(pw), "the probation mark is written at %s: expected store(true) in a picker and store(false) in BlockStatistics::reset only" % sorted(pw))
+
+
 def drop_closes(r, F):
     d = F.method(HC + "::Inner", "drop", "Drop")
     bodies = [d] + F.descendants(d)
@@ -300,6 +321,7 @@ def run(chk, F):
     chk.run_rule("C15.engine-refuses", "enqueue/delete test `active` before allocating or submitting; close deactivates then waits", 4, engine_refuses, F)
     chk.run_rule("C15.queue-gate", "the submit-queue admission counter is released for every received entry by the amount added for it; the gate drops only above the threshold", 6, queue_gate, F)
     chk.run_rule("C15.engine-waits", "BlockEngine::wait awaits a Wait round-trip through every flusher and the reclaimers; waiters are answered only on io completion", 4, engine_waits, F)
+    chk.run_rule("C15.flag-writers", "who may write the engine's `active` flag and the probation mark", 2, flag_writers, F)
     chk.run_rule("C15.drop-closes", "Drop and close() run close_inner with the cache's own flag and tiers; Drop is unconditional; only close_inner writes the closed flag", 4, drop_closes, F)
     chk.run_rule("C15.enqueue-guards-exact", "no extra condition guards the disk write of a flushed / evicted entry", 5, C12.enqueue_guards_exact, F)
     chk.run_rule("C15.inmem-guard", "every Store::enqueue of the hybrid layer is control-dependent on location != InMem", 5, C12.inmem_guard, F)
